@@ -138,15 +138,41 @@ func ReadUint32(rd io.Reader) (uint32, error) {
 
 // ReadNBytes reads n bytes from the reader
 func ReadNBytes(n int, rd io.Reader) ([]byte, error) {
-	var b []byte = make([]byte, n)
-	num, err := rd.Read(b)
+	// The buffer grows with the data that actually arrives (a declared length is not trusted for the
+	// allocation) and short reads are continued until n bytes are there or the reader fails.
+	const step = 4096
+	var b = make([]byte, 0, minInt(n, step))
+	var empty int
+	for len(b) < n {
+		buf := make([]byte, minInt(n-len(b), step))
+		num, err := rd.Read(buf)
+		b = append(b, buf[:num]...)
 
-	// if num is correct, we are not interested in io.EOF errors
-	if num == n {
-		err = nil
+		// if num is correct, we are not interested in io.EOF errors
+		if len(b) == n {
+			break
+		}
+
+		if err != nil {
+			return b, err
+		}
+
+		if num == 0 {
+			empty++
+			if empty > 100 {
+				return b, io.ErrNoProgress
+			}
+		}
 	}
 
-	return b, err
+	return b, nil
+}
+
+func minInt(a, b int) int {
+	if a < b {
+		return a
+	}
+	return b
 }
 
 // ErrUnexpectedEOF is returned, when an unexspected end of file is reached.
@@ -329,12 +355,10 @@ func ReadVarLengthData(reader io.Reader) ([]byte, error) {
 		return []byte{}, err
 	}
 
-	var buffer []byte = make([]byte, length)
-
-	num, err := reader.Read(buffer)
+	buffer, err := ReadNBytes(int(length), reader)
 
 	// If we couldn't read the entire expected-length buffer, that's a problem.
-	if num != int(length) {
+	if len(buffer) != int(length) {
 		return []byte{}, ErrUnexpectedEOF
 	}
 
